@@ -478,6 +478,26 @@ def probe_fixed_defects():
     v = float(c.relent(c.Expression([z[0] + 1, z[0] + 1]), c.Expression([2.0, 2.0])).value)
     if abs(v - 2 * math.log(0.5)) > 1e-12:
         return 'relent([z+1,z+1],[2,2]) at z=0 evaluates to %r, expected %r' % (v, 2 * math.log(0.5))
+    # conventions of the nonlinear atoms at the boundary of their domains: 0*log(0/y) = 0
+    for xe, ye, want in ((c.Expression([z[0]]), c.Expression([2.0]), 0.0), (c.Expression([0.0, 1.0]), c.Expression([z[0] + 3.0, 1.0]), 0.0),
+                         (c.Expression([z[0], 2.0]), c.Expression([1.0, z[0] + 1.0]), 2 * math.log(2.0))):
+        v = float(c.relent(xe, ye).value)
+        if not (abs(v - want) <= 1e-12):
+            return 'relent with a zero first argument evaluates to %r at z=0, expected %r (x log(x/y) = 0 at x = 0)' % (v, want)
+    # badly scaled data: products of small coefficients are still coefficients (no thresholding in matrix products)
+    xs = c.Variable(shape=(2,), name='scaled')
+    e = 2.0 ** -20 * xs + 1.0
+    A = 2.0 ** -20 * np.array([[1.0, 2.0], [3.0, 4.0]])
+    xs.value = 2.0 ** 41 * np.array([1.0, -1.0])
+    ev = 2.0 ** -20 * xs.value + 1.0
+    import scipy.sparse as sp
+    for name, got, want in (('A @ e', A @ e, A @ ev), ('e @ A', e @ A, ev @ A), ('sparse(A) @ e', sp.csr_matrix(A) @ e, A @ ev),
+                            ('dot(A[0], e)', c.dot(A[0], e) if hasattr(c, 'dot') else A[0] @ e, A[0] @ ev)):
+        gv = np.asarray(c.Expression(got).value if not hasattr(got, 'value') else got.value, dtype=float)
+        if gv.shape != np.shape(want) or not np.array_equal(gv, np.asarray(want)):
+            return '%s with entries of size 2^-20 evaluates to %s, numpy gives %s' % (name, gv.tolist(), np.asarray(want).tolist())
+        if not any(int(sv.id) in [int(i) for i in xs.scalar_variable_ids] for sv in (c.Expression(got) if not hasattr(got, 'scalar_variables') else got).scalar_variables()):
+            return '%s with entries of size 2^-20 no longer depends on its Variable' % name
     return None
 
 
@@ -497,6 +517,19 @@ def oracle_equiv(rng):
     pairs.append((x[:2], x[:2] + x[1:], False))
     pairs.append((x[:2] + x[1:], x[:2], False))
     pairs.append((x[:2], x, False))
+    # atoms of different classes may carry the SAME id (ids are per-class counters; a ScalarVariable's id is another counter):
+    # equality of ids is not equality of atoms
+    from sageopt.coniclifts.operators.abs import Abs, abs as clabs
+    from sageopt.coniclifts.operators.exp import Exponential
+    from sageopt.coniclifts.operators.pos import Pos, pos as clpos
+    y = c.Variable(shape=(1,), name='eqy')
+    sid = int(y.scalar_variable_ids[0])
+    Exponential._EXPONENTIAL_COUNTER_ = sid
+    ey = c.weighted_sum_exp(np.array([1.0]), c.Expression([x[0]]))      # one Exponential atom with id == id of y[0]
+    pairs.append((c.Expression([y[0]]), c.Expression([ey]) if not isinstance(ey, b.Expression) else ey.reshape((1,)) if ey.shape == () else ey, False))
+    top = max(Abs._ABS_COUNTER_, Pos._POS_COUNTER_)
+    Abs._ABS_COUNTER_ = Pos._POS_COUNTER_ = top
+    pairs.append((clabs(x[:1]), clpos(x[:1]), False))
     for a, bb, want in pairs:
         try:
             got = b.Expression.are_equivalent(a, bb)
